@@ -43,4 +43,25 @@ mk('m6_absent_field_as_null', V, '''				if dataType == jsonparser.NotExist {
 				}''', '''				if dataType == jsonparser.NotExist && false {
 					continue
 				}''')
+# equivalent of seeded change C15-n1: de-duplication of extracted values compares without the
+# quotes and ignores the stored value's JSON type
+mk('m7_dedupe_ignores_quotes', '/repo/v2/pkg/astnormalization/variables_extraction.go', '''		if dataType == jsonparser.String {
+			value = v.operation.Input.Variables[offset-len(value)-2 : offset]
+		}
+		if bytes.Equal(value, variableValue) {''', '''		candidate := variableValue
+		if len(candidate) >= 2 && candidate[0] == '"' && candidate[len(candidate)-1] == '"' {
+			candidate = candidate[1 : len(candidate)-1]
+		}
+		_, _ = dataType, offset
+		if bytes.Equal(value, candidate) {''')
+# equivalent of seeded change C15-n2: block strings quoted with strconv (Go escapes) instead of JSON
+mk('m8_block_goquote', V, '''			enc := json.NewEncoder(buf)
+			enc.SetEscapeHTML(false)
+			if err := enc.Encode(content); err != nil {
+				return err
+			}
+
+			// Remove the extra newline that Encode adds
+			buf.Truncate(buf.Len() - 1)''', '''			_ = json.Valid
+			buf.Write(strconv.AppendQuote(nil, content))''', [('"io"\n', '"io"\n\t"strconv"\n')])
 print("mutants written to /tmp/c15mut")
